@@ -143,3 +143,18 @@ def check_counter(tree, rep, rule, relpath, cls, attr, step=1, init_funcs=INIT_F
               key="%s:%s.%s:no-increment" % (rule, cls, attr),
               what="%s.%s has no `+= %d` site left" % (cls, attr, step), evals=max(1, len(own)))
     return own
+
+
+def writer_table(tree, rep, rule, cls, attr, allowed, why):
+    """every site that writes <cls>.<attr> is one of `allowed`: {(function, kind), ..} with kind as effects.Writer.kind ('assign',
+    'call:add', 'delete', ..) or '*' for any kind in that function"""
+    from .srcmodel import AnalysisError as _AE
+    own, foreign = class_writers(tree, cls, attr)
+    if not own:
+        raise _AE("%s.%s has no writers (attribute renamed?)" % (cls, attr))
+    for w in own + foreign:
+        ok = w in own and ((w.fn, w.kind) in allowed or (w.fn, "*") in allowed)
+        rep.check(rule, "%s.%s writer %s is one of the known %d" % (cls, attr, w.brief(), len(allowed)), ok, w.site,
+                  key="%s:%s:writer:%s" % (rule, attr, w.brief()), what="%s.%s is written by %s: %s" % (cls, attr, w.brief(), why))
+
+
